@@ -45,6 +45,53 @@ Fixpoint value_out (v : value) : out :=
 
 Definition is_req (v : value) : bool := match v with VReq => true | _ => false end.
 
+(* ---- Python's dict-key discipline on (evaluated) values ----
+   [py_hashable]: hash(v) succeeds (lists and dicts, and tuples holding one, raise TypeError).
+   [py_key_eqb a b]: a and b are the same dict key (hash(a) == hash(b) and a == b): None; bool and int compare as
+   numbers (True == 1, False == 0); strings; tuples pointwise; the objects (gin.REQUIRED, a probe result, an opaque
+   object, a configurable) by identity, which the model reads off the constructor arguments: a probe result is its
+   (selector, call number), an opaque object its id, a configurable its selector.  A configurable decorated with a
+   scope (@a/b/fn) is a fresh function per reference object in gin; the model has no reference identity and takes
+   equal scopes and selector for the same function (exact for scopes = [] and for one reference reached twice
+   through macros).  A ConfigurableReference (never the result of an evaluation) compares by config key and flag.
+   Not covered: floats (the model has none), objects with their own __eq__ / __hash__. *)
+Fixpoint py_hashable (v : value) : bool :=
+  match v with
+  | VList _ | VDict _ => false
+  | VTuple l => forallb py_hashable l
+  | _ => true
+  end.
+Definition bool_z (b : bool) : Z := if b then 1%Z else 0%Z.
+Fixpoint py_key_eqb (a b : value) {struct a} : bool :=
+  match a, b with
+  | VNone, VNone => true
+  | VBool x, VBool y => Z.eqb (bool_z x) (bool_z y)
+  | VBool x, VInt y => Z.eqb (bool_z x) y
+  | VInt x, VBool y => Z.eqb x (bool_z y)
+  | VInt x, VInt y => Z.eqb x y
+  | VStr x, VStr y => String.eqb x y
+  | VTuple xs, VTuple ys =>
+      (fix go (l1 l2 : list value) {struct l1} : bool :=
+         match l1, l2 with
+         | [], [] => true
+         | x :: r1, y :: r2 => py_key_eqb x y && go r1 r2
+         | _, _ => false
+         end) xs ys
+  | VReq, VReq => true
+  | VRet s n, VRet s' n' => String.eqb s s' && Z.eqb n n'
+  | VHandle sc s, VHandle sc' s' => key_eqb sc sc' && String.eqb s s'
+  | VObj i, VObj j => String.eqb i j
+  | VRef sc s e, VRef sc' s' e' => key_eqb sc sc' && String.eqb s s' && Bool.eqb e e'
+  | _, _ => false
+  end.
+(* y[k] = x on an insertion-ordered dict: an equal key keeps its place (and the key object already there) and takes
+   the new value *)
+Fixpoint vdict_set (k x : value) (l : list (value * value)) : list (value * value) :=
+  match l with
+  | [] => [(k, x)]
+  | (j, w) :: r => if py_key_eqb k j then (j, x) :: r else (j, w) :: vdict_set k x r
+  end.
+
 (* ---- insertion-ordered association lists (Python dict) ---- *)
 Section AL.
   Context {K V : Type}.
